@@ -101,8 +101,11 @@ package standard
 //@ ensures [tableinv] tableInv(s)
 //@ ensures [notinprogress] !old(account in s.generations) ==> result == ErrNotInProgress
 //@ ensures [others] forall a string :: a != account ==> ((a in s.generations) <==> old(a in s.generations)) && s.generations[a] == old(s.generations[a])
+// C13: execute succeeds only if the swap with every higher-numbered participant took place (a failed exchange fails the generation)
+//@ ensures [swapped] result == nil ==> account in s.generations && (forall id uint64 :: id in s.generations[account].distributionSecrets && id > s.id ==> id in s.generations[account].sharedSecrets)
 //@ hint-after getGeneration@1 [ginv] result1 == nil ==> genInv(result0)
 //@ loop #1
+//@ invariant [swapped] forall id uint64 :: visited()[id] && id > s.id ==> id in generation.sharedSecrets
 //@ invariant [table] tableInv(s) && generation != nil && account in s.generations && s.generations[account] == generation
 //@ invariant [gens] forall a string :: ((a in s.generations) <==> old(a in s.generations) || a == account) && (a != account ==> s.generations[a] == old(s.generations[a]))
 //@ invariant [framesec] forall m map[uint64]bls.SecretKey, k uint64 :: !fresh(m) && m != generation.sharedSecrets ==> ((k in m) <==> old(k in m)) && m[k] == old(m[k])
